@@ -1,4 +1,6 @@
 """Driver helpers: make a public call on the real library, classify what happens."""
+import os
+
 import numpy as np
 
 from . import core, probe
@@ -21,6 +23,11 @@ def call(api, fn, *args, prop=None, tags=(), detail=None, refusals=(), **kwargs)
         probe.S.busy = 0
         probe.S.depth = 0
         del probe.S.targets[:]
+        if os.environ.get('VERIF_DEBUG'):
+            import traceback
+            traceback.print_exc()
+            np.set_printoptions(precision=17, linewidth=200)
+            print('VERIF_DEBUG args of', api, ':', args, kwargs)
         c.exception(api, e, tags=tags, detail=detail, prop=prop)
         return False, None
     c.ran(api, prop=prop)
